@@ -837,10 +837,16 @@ type bState struct {
 	HasRoot, HasSub bool
 	Root, Sub       string
 	Modes           string // permission bits of idxFiles (world with an index only)
+	HasInfo         bool   // .git/info/attributes exists (scenario "pre", macro placement only; otherwise the file is absent)
+	Info            string
 }
 
 func (s bState) attrKey() string {
-	return fmt.Sprintf("%v|%v|%d|%s|%s", s.HasRoot, s.HasSub, len(s.Root), s.Root, s.Sub)
+	k := fmt.Sprintf("%v|%v|%d|%s|%s", s.HasRoot, s.HasSub, len(s.Root), s.Root, s.Sub)
+	if s.HasInfo {
+		k += fmt.Sprintf("|info:%d|%s", len(s.Info), s.Info)
+	}
+	return k
 }
 
 func (s bState) key() string { return s.Modes + "|" + s.attrKey() }
@@ -856,6 +862,8 @@ type bInit struct {
 	Root      string
 	HasSub    bool
 	Sub       string
+	HasInfo   bool   // scenario "pre": .git/info/attributes exists (holds a macro definition)
+	Info      string
 	Vec       []int // scenario "pre": the deviation vector this file was generated from
 	FromGit   bool  // scenario "pre": whether entry 0 (the generated line's own pattern) is present is taken from Git's reading of the file
 	NoLineRoot, NoLineSub string // scenario "pre": the same files without the generated line (what the OTHER lines mean is taken from them)
@@ -919,7 +927,7 @@ func seqKey(init int, ops []int) string {
 }
 
 func (c *bCtx) initState(in *bInit) bState {
-	s := bState{HasRoot: in.HasRoot, Root: in.Root, HasSub: in.HasSub, Sub: in.Sub}
+	s := bState{HasRoot: in.HasRoot, Root: in.Root, HasSub: in.HasSub, Sub: in.Sub, HasInfo: in.HasInfo, Info: in.Info}
 	if c.world == "idx" {
 		s.Modes = readModes(c.h.tplIdx)
 	}
@@ -959,6 +967,10 @@ func (c *bCtx) materialize(s bState) string {
 	if s.HasSub {
 		os.WriteFile(filepath.Join(repo, "sub", ".gitattributes"), []byte(s.Sub), 0644)
 	}
+	if s.HasInfo {
+		os.MkdirAll(filepath.Join(repo, ".git", "info"), 0755)
+		os.WriteFile(filepath.Join(repo, ".git", "info", "attributes"), []byte(s.Info), 0644)
+	}
 	return repo
 }
 
@@ -966,6 +978,7 @@ func (c *bCtx) readState(repo string) bState {
 	var s bState
 	s.Root, s.HasRoot = readOpt(filepath.Join(repo, ".gitattributes"))
 	s.Sub, s.HasSub = readOpt(filepath.Join(repo, "sub", ".gitattributes"))
+	s.Info, s.HasInfo = readOpt(filepath.Join(repo, ".git", "info", "attributes"))
 	if c.world == "idx" {
 		s.Modes = readModes(repo)
 	}
@@ -1771,11 +1784,12 @@ func TestVerifC19(t *testing.T) {
 		"those configurations add invocations that git-lfs refuses (block-listed .gitignore / .git*) or cannot complete (pattern matching an index entry whose file is gone): for an invocation that exits non-zero only `attributes of all non-denoted probes unchanged` is demanded; " +
 		"every (state, op) pair is executed once on the real binary and `check-attr -a` over the probe paths is compared before/after; a transition is non-trivial when its pattern denotes a probe path; distinct by (state hash, op). " +
 		"Violations carry the locally minimal failing name (delete a character / replace by 'a' / move to root) so that one defect class has one fingerprint. " +
-		"pre: the same search and the same clauses as seq, started from pre-existing files GENERATED from a grammar: a file is a vector over 11 dimensions (line terminator, separator after the pattern, leading/trailing blanks, " +
+		"pre: the same search and the same clauses as seq, started from pre-existing files GENERATED from a grammar: a file is a vector over 12 dimensions (line terminator, separator after the pattern, leading/trailing blanks, " +
 		"attribute list of the generated line incl. spellings that do not mean filter=lfs and a macro, pattern glob/with space, pattern spelling own/C-quoted, position of the line among unrelated/comment/blank/[attr] lines, UTF-8 BOM, " +
 		"root file / sub/.gitattributes / root file with operations inside sub/, multiplicity of the pattern: once / twice adjacent / twice separated by another line / three times / twice in different spellings / " +
-		"LFS line + `P lockable` line in both orders); value 0 of every dimension is what git-lfs itself writes; EVERY valid vector with at most max_deviations non-default coordinates is a start state " +
-		"(bounds.pre lists dimensions, values and counts); operations = {track, track --lockable, track --not-lockable, untrack} on the generated line's pattern and on another pattern (*.bin); files with at most " +
+		"LFS line + `P lockable` line in both orders, " +
+		"placement of the [attr] macro definition used by an attrs=macro line: top-level .gitattributes / nested sub/.gitattributes (Git ignores definitions there) / .git/info/attributes); value 0 of every dimension is what git-lfs itself writes; EVERY valid vector with at most max_deviations non-default coordinates is a start state " +
+		"(bounds.pre lists dimensions, values and counts), and so is every member of the macro-placement cross product attrs=macro x definition {top, nested, info} x location of the use {root, sub, root operated in sub/} (bounds.pre.macro_placement_files_beyond_max_deviations: the members with three deviations); operations = {track, track --lockable, track --not-lockable, untrack} on the generated line's pattern and on another pattern (*.bin); files with at most " +
 		"searched_to_closure_up_to_deviations deviations are searched to closure, the others by every sequence of sequence_length_for_files_with_more_deviations operation(s); " +
 		"a failure's fingerprint names the clause, the operation, the role of its pattern (same/other/below) and the locally minimal set of deviations that still fails on the same operations (greedy removal of one deviation at a time; " +
 		"a multiplicity that cannot be removed is replaced by `twice adjacent` when that still fails). " +
@@ -1783,7 +1797,8 @@ func TestVerifC19(t *testing.T) {
 		"there `git lfs untrack N` is the undo of `git lfs track --filename N` because N has no glob character (as a pattern it denotes exactly the literal path)."
 	c.Assumptions = []string{
 		"Git 2.39 `git check-attr` is the authority on what a .gitattributes means; a pattern's denotation is what Git reports for the same pattern written C-quoted by hand",
-		"the future behaviour of track/untrack depends only on the bytes of the two attribute files (no tracked files, no info/attributes, no global attributes in the scenario)",
+		"the future behaviour of track/untrack depends only on the bytes of the two attribute files, plus .git/info/attributes in the files of scenario pre that put a macro definition there (it is part of the state there; no tracked files, no global attributes in the scenario)",
+		"pre, macro placement: what a line `P mylfs` means (tracked or not) is Git's reading of the files as everywhere: Git honours [attr] definitions of the top-level .gitattributes and of .git/info/attributes, and ignores (with a warning on stderr) definitions in nested .gitattributes files, whether the use is in the same nested file or in the root file",
 		"seq probe set deliberately has no path differing from `my file#1.dat` only in the kind of whitespace: that class is covered (and reported) by the names scenario",
 		"`./`-prefixed arguments are outside the enumerated grammar (git-lfs strips the prefix on purpose; Git itself would match nothing)",
 		"untrack is only demanded to undo a pattern-mode track with the identical argument, or a --filename track of a name that has no glob character, no backslash and no leading `!` (untrack has no --filename; such a name read as a pattern denotes exactly the literal path)",
